@@ -330,24 +330,97 @@ func c20Samples(r *Rng, dur bool, spec []int64) []int64 {
 
 // c20Derive builds a specification related to base so that the two share
 // their cache identity (23 + 31 * sum of the elements' 64-bit patterns).
+// c20OkValueSpec: acceptable as a ValueBuckets specification (no NaN, not both zeros).
+func c20OkValueSpec(s []int64) bool {
+	pz, nz := false, false
+	for _, b := range s {
+		if c20IsNaNBits(b) {
+			return false
+		}
+		if b == 0 {
+			pz = true
+		}
+		if uint64(b) == 1<<63 {
+			nz = true
+		}
+	}
+	return !(pz && nz)
+}
+
+// c20Identity is the cache identity of a specification as the model defines it
+// (Model/BCache.v real_ident): 0 for the empty one, else 23 + 31 * the sum of
+// the elements' 64-bit patterns, modulo 2^64.
+func c20Identity(spec []int64) uint64 {
+	if len(spec) == 0 {
+		return 0
+	}
+	id := uint64(23)
+	for _, v := range spec {
+		id += uint64(v) * 31
+	}
+	return id
+}
+
+// 31^-1 modulo 2^64 (Newton iteration)
+var c20Inv31 = func() uint64 {
+	x := uint64(31)
+	for i := 0; i < 6; i++ {
+		x *= 2 - 31*x
+	}
+	return x
+}()
+
+// c20WithIdentity draws a NON-empty specification of n elements whose cache
+// identity is id: n-1 elements are drawn as usual, the last one is solved for.
+// The property quantifies over bucket sets "chosen to collide with it in the
+// internal bucket cache"; this also reaches the identities no other set of a
+// history has: the one of the empty specification (0) and the bare seed (23).
+func c20WithIdentity(r *Rng, dur bool, id uint64, n int) ([]int64, bool) {
+	if n < 1 {
+		n = 1
+	}
+	sum := (id - 23) * c20Inv31
+	for try := 0; try < 40; try++ {
+		t := c20Spec(r, dur, n-1)
+		rest := sum
+		for _, v := range t {
+			rest -= uint64(v)
+		}
+		t = append(t, int64(rest))
+		if !dur && !c20OkValueSpec(t) {
+			if try%4 == 3 {
+				n++ // a one-element value set has no freedom: its only bit pattern may be a NaN
+			}
+			continue
+		}
+		for i := len(t) - 1; i > 0; i-- {
+			j := r.Intn(i + 1)
+			t[i], t[j] = t[j], t[i]
+		}
+		if c20Identity(t) == id {
+			return t, true
+		}
+	}
+	return nil, false
+}
+
+// the identities that stand for something other than a colliding peer: the
+// empty specification (both kinds) and the accumulator's bare seed
+var c20SpecialIDs = []uint64{0, 0, 0, 23}
+
 func c20Derive(r *Rng, dur bool, base []int64) (bool, []int64, string) {
 	cp := append([]int64(nil), base...)
-	okv := func(s []int64) bool { // acceptable as a ValueBuckets specification
-		pz, nz := false, false
-		for _, b := range s {
-			if c20IsNaNBits(b) {
-				return false
-			}
-			if b == 0 {
-				pz = true
-			}
-			if uint64(b) == 1<<63 {
-				nz = true
-			}
+	okv := c20OkValueSpec
+	switch r.Intn(10) {
+	case 7, 8: // an unrelated set (any length, either kind) solved for the same identity; base may be empty
+		d2 := dur
+		if r.Chance(30) {
+			d2 = !dur
 		}
-		return !(pz && nz)
-	}
-	switch r.Intn(8) {
+		if t, ok := c20WithIdentity(r, d2, c20Identity(base), 1+r.Intn(4)); ok {
+			return d2, t, "match"
+		}
+		return dur, cp, "same"
 	case 0: // the same elements in a fresh slice: a true hit
 		return dur, cp, "same"
 	case 1: // a permutation
@@ -454,6 +527,17 @@ func c20GenCache(r *Rng, conc bool) c20Case {
 		if conc && len(c.Cr)%c.Workers != 0 && r.Chance(85) {
 			b := pool[len(pool)-1-r.Intn(len(c.Cr)%c.Workers)]
 			dur, spec, how = c20Derive(r, b.dur, b.spec)
+		} else if r.Chance(12) {
+			// a non-empty set with a distinguished identity, as the first creation
+			// of a history (alone) or after others
+			dur = r.Chance(50)
+			var ok bool
+			if spec, ok = c20WithIdentity(r, dur, c20SpecialIDs[r.Intn(len(c20SpecialIDs))], 1+r.Intn(4)); !ok {
+				continue
+			}
+			how = "special"
+		} else if r.Chance(6) {
+			dur, spec, how = r.Chance(50), []int64{}, "empty"
 		} else if conc && r.Chance(80) {
 			dur = r.Chance(35)
 			spec = c20Spec(r, dur, 2+r.Intn(3))
@@ -1144,6 +1228,22 @@ func c20Fixed() []c20Case {
 				mk(t, fl, c20Creation{Spec: b}, c20Creation{Spec: a, Scope: 2}, c20Creation{Dur: true, Spec: a}, c20Creation{Dur: true, Spec: b}),
 				mk(t, fl, c20Creation{Spec: []int64{}}, c20Creation{Dur: true, Spec: []int64{}}, c20Creation{Spec: []int64{0, 0}}, c20Creation{Spec: []int64{f(math.Copysign(0, -1)), f(math.Copysign(0, -1))}}),
 				mk(t, fl, c20Creation{Dur: true, Spec: []int64{10, 40}}, c20Creation{Dur: true, Spec: []int64{20, 30}}, c20Creation{Dur: true, Spec: []int64{50}}, c20Creation{Dur: true, Spec: []int64{40, 10}}),
+			)
+		}
+	}
+	// non-empty sets whose identity is that of the empty set (element sum = -23/31 mod 2^64),
+	// alone, after an empty set of either kind, and before one
+	zsum := -(23 * c20Inv31) // = 8925843906633654007
+	zd := []int64{int64(250 * time.Millisecond), int64(time.Second), int64(zsum) - int64(1250*time.Millisecond)}
+	zv := []int64{int64(zsum - uint64(f(1))), f(1)}
+	for t := 4; t <= 5; t++ {
+		for fl := 0; fl < 2; fl++ {
+			out = append(out,
+				mk(t, fl, c20Creation{Dur: true, Spec: zd}),
+				mk(t, fl, c20Creation{Spec: zv}),
+				mk(t, fl, c20Creation{Spec: []int64{}}, c20Creation{Dur: true, Spec: zd}, c20Creation{Spec: zv, Scope: 1}, c20Creation{Dur: true, Spec: []int64{}}),
+				mk(t, fl, c20Creation{Spec: zv}, c20Creation{Dur: true, Spec: []int64{}}, c20Creation{Dur: true, Spec: zd}, c20Creation{Spec: []int64{}}, c20Creation{Dur: true, Spec: []int64{int64(zsum)}}),
+				mk(t, fl, c20Creation{Dur: true, Spec: []int64{0}}, c20Creation{Spec: []int64{0}}, c20Creation{Dur: true, Spec: []int64{5, -5}}, c20Creation{Dur: true, Spec: []int64{0, 0, 0}}),
 			)
 		}
 	}
